@@ -208,6 +208,31 @@ impl<'tcx> JSFormatter<'tcx> {
         }
     }
 
+    /// JS expression giving the value of a primitive that a wasm export returned *by value as the only scalar of a struct*.
+    ///
+    /// Such a struct comes back as the bare scalar, but (unlike a primitive returned directly) without the
+    /// zero- or sign-extension of its type: only the low `size_of::<T>()` bytes are meaningful, and wasm integers are signed.
+    pub fn fmt_narrow_returned_scalar(
+        &self,
+        primitive_type: hir::PrimitiveType,
+        value: &str,
+    ) -> String {
+        match primitive_type {
+            hir::PrimitiveType::Bool => format!("({value} & 0xFF) === 1"),
+            hir::PrimitiveType::Byte | hir::PrimitiveType::Int(hir::IntType::U8) => {
+                format!("{value} & 0xFF")
+            }
+            hir::PrimitiveType::Int(hir::IntType::I8) => format!("({value} << 24) >> 24"),
+            hir::PrimitiveType::Int(hir::IntType::U16) => format!("{value} & 0xFFFF"),
+            hir::PrimitiveType::Int(hir::IntType::I16) => format!("({value} << 16) >> 16"),
+            hir::PrimitiveType::Int(hir::IntType::U32)
+            | hir::PrimitiveType::IntSize(hir::IntSizeType::Usize)
+            | hir::PrimitiveType::Char => format!("{value} >>> 0"),
+            hir::PrimitiveType::Int(hir::IntType::U64) => format!("BigInt.asUintN(64, {value})"),
+            _ => value.into(),
+        }
+    }
+
     /// Generates a JS primitive list type from a Rust type.
     pub fn fmt_primitive_list_type(&self, primitive: hir::PrimitiveType) -> &'static str {
         match primitive {
